@@ -354,12 +354,12 @@ func vC13XorClass(tag string, l, tmode int) uint64 {
 
 // Two values: the XOR of the pair takes every leading-zero count 0..63 with no, five or the
 // maximal number of trailing zeros (thorough: any number); the second value's XOR with the end
-// marker has 0 or 12 leading zeros (thorough: 7 classes) and no trailing zeros.
+// marker has 0 or 12 leading zeros (thorough: also 32) and no trailing zeros.
 func VerifHarness_C13_FloatPair() {
 	endClasses := []int{0, 12}
 	tmodes := 3
 	if vThorough() {
-		endClasses = []int{0, 1, 12, 31, 32, 33, 63}
+		endClasses = []int{0, 12, 32}
 		tmodes = 4
 	}
 	le := endClasses[vChoice("endMarkerLeadingZeros", len(endClasses))]
